@@ -25,13 +25,14 @@ def mc_api(maxcalls=4, ops=("addPeer", "deletePeer", "serve", "close", "getPeer"
 
 
 def mc_timed(maxnow=14, conns=2, msgs=3, passive=False, alphabet=("open3", "ka", "notif"), inv="TimedInv", reach=False,
-             workers=None, timeout=3000):
+             workers=None, timeout=3000, stall=False):
     """MC_Timed: explicit (scaled) time; hold/keepalive timers, dial pacing, hold-down ladder."""
     cfg = ("SPECIFICATION TSpec\nCONSTANTS\n  Timed = TRUE\n  RecordOut = FALSE\n  KnownD14 = FALSE\n  MaxNow = %d\n"
-           "  TMaxConns = %d\n  TMaxMsgs = %d\n  TPassive = %s\n  TAlphabet = {%s}\n"
+           "  TMaxConns = %d\n  TMaxMsgs = %d\n  TPassive = %s\n  TAlphabet = {%s}\n  TStall = %s\n"
            "  Sec <- TSec\n  LongHold <- TLongHold\n  DampMin <- TDampMin\n  DampMax <- TDampMax\n  Amnesia <- TAmnesia\n"
            "INVARIANT %s\nCHECK_DEADLOCK FALSE\nVIEW TView\n") % (
-        maxnow, conns, msgs, "TRUE" if passive else "FALSE", ", ".join('"%s"' % a for a in alphabet), inv)
+        maxnow, conns, msgs, "TRUE" if passive else "FALSE", ", ".join('"%s"' % a for a in alphabet),
+        "TRUE" if stall else "FALSE", inv)
     t = ("MC_Timed", cfg, workers or C.NCPU, timeout)
     return t + (inv,) if reach else t
 
@@ -161,14 +162,16 @@ prop("C06",
                 rnd, 60),
      mc=lambda tier: [mc_pair(["openLo", "ka", "upd"], conns=1, msgs=3), mc_timed(14, 1, 4, False, ("open3", "open0", "ka", "upd")),
                       mc_timed(10, 1, 3, False, ("open3", "ka"), inv="NeverEstablished", reach=True)] +
-     ([mc_timed(12, 2, 3, False, ("open9", "open0", "ka", "upd"))] if tier == "thorough" else []),
+     ([mc_timed(12, 2, 3, False, ("open9", "open0", "ka", "upd")),
+       mc_timed(8, 1, 3, False, ("open3", "ka", "upd"), stall=True)] if tier == "thorough" else []),
      nontrivial=lambda s, r: has_cb(r, "OnOpenMessage"),
      rule="(local, remote) hold-time grid x traffic patterns (silent, KEEPALIVE-only, UPDATE-only, late, local writes); every "
           "KEEPALIVE and Hold Timer Expired NOTIFICATION must carry exactly the specified virtual timestamp")
 
 prop("C04",
      scripts=lambda tier, rnd: S.writers() + S.backpressure() + S.two_sessions() + S.slow_callbacks() + S.writers_random(rnd, 500 if tier == "thorough" else 12),
-     mc=lambda tier: [mc_pair(["openLo", "ka", "upd"], conns=1, msgs=3)],
+     mc=lambda tier: [mc_pair(["openLo", "ka", "upd"], conns=1, msgs=3)] +
+     ([mc_timed(8, 1, 3, False, ("open3", "ka", "upd"), stall=True)] if tier == "thorough" else [mc_timed(5, 1, 3, False, ("open3", "ka"), stall=True)]),
      nontrivial=lambda s, r: any(e["e"] == "ret" and e["n"] in ("write", "writeCb") for e in syscheck.events_of(r)),
      rule="WriteUpdate from callbacks and from application goroutines x body lengths {0,1,4077} x keepalive collisions x "
           "teardown kinds x stale writers; every conn.Write must be exactly one well-formed frame")
